@@ -125,6 +125,12 @@ fn c16(s: &mut Search) {
         s.class(name);
         s.run("Groups.reference", &req, "c16_table", &format!("table of {} is not the plane group", name), true);
     }
+    // … and whatever ran before in the process: a user-defined group under the same label first
+    for name in packing::wallpaper::WallpaperGroups::variants().iter() {
+        let req = format!("oracle c16_after_custom {}", name);
+        s.class("after-user-defined-group");
+        s.run("Groups.reference", &req, "c16_table", &format!("table of {} is not the plane group after a user-defined group with that label", name), true);
+    }
 }
 
 fn c17(s: &mut Search, rng: &mut Rng) {
@@ -305,7 +311,17 @@ fn scripted_for(pid: &str, rng: &mut Rng) -> String {
         s.push_str(&format!(" list {}", n));
         let scale = rng.logmag(-2.5, 0.0);
         let mut cur = 0.0;
+        // a start that is defined but infinitely bad, followed by proposals without a score
+        let neg_inf_start = pid == "C07" && rng.chance(1, 10);
         for i in 0..n {
+            if neg_inf_start && i == 0 {
+                s.push_str(&format!(" {}", fhex(f64::NEG_INFINITY)));
+                continue;
+            }
+            if neg_inf_start && i <= 3 {
+                s.push_str(" N");
+                continue;
+            }
             if i > 0 && rng.chance(1, 12) {
                 s.push_str(" N");
                 continue;
@@ -459,8 +475,10 @@ fn c11(s: &mut Search, rng: &mut Rng) {
             }
             1..=9 => {
                 let dense = rng.chance(1, 2);
-                let req = format!("oracle c11_svg {}", crate::gen::gen_state_desc(rng, dense));
-                s.class("svg");
+                let st = crate::gen::gen_state_desc(rng, dense);
+                let st = if rng.chance(1, 5) { with_group_suffix(&st, *rng.pick(&["!p4", "!p3", "!p4g"])) } else { st };
+                let req = format!("oracle c11_svg {}", st);
+                s.class(if st.contains('!') { "svg-custom-operations" } else { "svg" });
                 s.run("Svg.semantics", &req, "c11_svg", "the SVG does not show the structure", true);
             }
             10 => {
@@ -479,8 +497,12 @@ fn c11(s: &mut Search, rng: &mut Rng) {
             }
             _ => {
                 let dense = rng.chance(1, 2);
-                let req = format!("oracle c11_roundtrip {}", crate::gen::gen_state_desc(rng, dense));
-                s.class("json");
+                // also what only a JSON file or the library API can describe: operation lists whose linear parts
+                // are not symmetric matrices (four- and three-fold rotations), several sites, other families
+                let st = crate::gen::gen_state_desc_ext(rng, dense, true);
+                let st = if rng.chance(1, 4) { with_group_suffix(&st, *rng.pick(&["!p4", "!p3", "!p4g"])) } else { st };
+                let req = format!("oracle c11_roundtrip {}", st);
+                s.class(if st.contains('!') { "json-custom-operations" } else { "json" });
                 s.run("Json.roundTrip", &req, "c11_roundtrip", "JSON round trip changes the state", true);
             }
         }
@@ -566,7 +588,8 @@ fn opt_search(pid: &str, s: &mut Search, rng: &mut Rng) {
             if cfg.ends_with(" -") {
                 cfg = format!("{} {}", &cfg[..cfg.len() - 2], fhex(*rng.pick(&[1e-3, 0.1, 10.0, 0.0, f64::NAN, f64::INFINITY, -1.0])));
             }
-            let st = if rng.chance(1, 4) { format!("crystal {}", crate::gen::gen_state_desc(rng, true)) } else { scripted_for(pid, rng) };
+            let ext = rng.below(3) == 0;
+            let st = if rng.chance(1, 4) { format!("crystal {}", crate::gen::gen_state_desc_ext(rng, true, ext)) } else { scripted_for(pid, rng) };
             let req = format!("oracle opt_prefix {} {}", cfg, st);
             s.class("prefix");
             s.run("Opt.prefix", &req, "c20_prefix", "the run with a convergence threshold is not a prefix of the run without", true);
@@ -728,6 +751,39 @@ fn c13(s: &mut Search, rng: &mut Rng) {
 
 /// hard states in the region where overlap detection is delicate: dense, skewed, elongated cells,
 /// copies near opposite faces, bound-clamped coordinates
+/// the state description with a modifier appended to its group token (`p2` -> `p2%2`, `p1` -> `p1!p4`, …)
+fn with_group_suffix(st: &str, suffix: &str) -> String {
+    st.split(' ').map(|x| if crate::gen::GROUPS.contains(&x) { format!("{}{}", x, suffix) } else { x.to_string() }).collect::<Vec<_>>().join(" ")
+}
+
+/// a single-site state description turned into one with several occupied sites (`g+`): the cell is enlarged
+/// so that the density stays comparable, the extra sites are placed at random (sometimes on top of the first)
+fn with_more_sites(rng: &mut Rng, st: &str) -> String {
+    let pi = std::f64::consts::PI;
+    let mut t: Vec<String> = st.split(' ').map(|x| x.to_string()).collect();
+    let gi = match t.iter().position(|x| crate::gen::GROUPS.contains(&x.as_str())) { Some(i) => i, None => return st.to_string() };
+    if t.len() != gi + 8 || t[gi + 4] != "1" {
+        return st.to_string();
+    }
+    let k = 2 + rng.usize(2);
+    t[gi] = format!("{}+", t[gi]);
+    let l = crate::util::unfhex(&t[gi + 1]).unwrap_or(1.0);
+    t[gi + 1] = fhex(l * (k as f64).sqrt() * rng.range(1.0, 1.5));
+    t[gi + 4] = format!("{}", k);
+    for _ in 1..k {
+        if rng.chance(1, 6) {
+            let (x, y) = (t[gi + 5].clone(), t[gi + 6].clone());
+            t.push(x);
+            t.push(y);
+        } else {
+            t.push(fhex(crate::gen::gen_site_coord(rng)));
+            t.push(fhex(crate::gen::gen_site_coord(rng)));
+        }
+        t.push(fhex(rng.range(0.0, 2.0 * pi)));
+    }
+    t.join(" ")
+}
+
 fn gen_hard_state_adversarial(rng: &mut Rng) -> String {
     let pi = std::f64::consts::PI;
     let shape = match rng.below(8) {
@@ -953,6 +1009,10 @@ fn c02(s: &mut Search, rng: &mut Rng) {
                     let i = t.iter().position(|x| *x == "trimer").unwrap();
                     crate::exec::exec_line(&format!("oracle c02_classify trimer {} {} {}", t[i + 1], t[i + 2], t[i + 3])).contains("triple")
                 };
+                let st = if rng.chance(1, 5) { with_more_sites(rng, &st) } else { st };
+                // the descriptive fields of a site (rotation order, mirror flags) do not change how many copies
+                // it places: the score counts the placed copies
+                let st = if rng.chance(1, 6) { with_group_suffix(&st, *rng.pick(&["%2", "%3", "%4"])) } else { st };
                 let req = format!("oracle c02_score {}", st);
                 s.class("state-score");
                 s.run("Score.fraction", &req, if triple { "c02_triple_overlap" } else { "c02_score" }, "score is not the packing fraction in (0,1]", true);
@@ -978,14 +1038,16 @@ fn c04(s: &mut Search, rng: &mut Rng) {
     while s.time_left() && n < 2_000_000 {
         n += 1;
         if n % 6 == 0 {
-            let req = format!("oracle after_opt symmetry {} crystal {}", crate::gen::gen_cfg_small(rng), crate::gen::gen_state_desc(rng, true));
+            let req = format!("oracle after_opt symmetry {} crystal {}", crate::gen::gen_cfg_small(rng), crate::gen::gen_state_desc_ext(rng, true, true));
             s.class("after-optimisation");
             s.run("Groups.mapsOntoItself", &req, "c04_symmetry", "the crystal does not have the symmetry of its group", true);
             continue;
         }
         let dense = rng.below(2) == 0;
-        let req = format!("oracle c04_symmetry {}", crate::gen::gen_state_desc(rng, dense));
-        s.class("state");
+        // also several occupied sites and (for p1 / p2) cells of the two families no built-in group uses
+        let st = crate::gen::gen_state_desc_ext(rng, dense, true);
+        let req = format!("oracle c04_symmetry {}", st);
+        s.class(if st.contains("+ ") { "several-sites" } else if st.contains('@') { "fixed-family" } else { "state" });
         s.run("Groups.mapsOntoItself", &req, "c04_symmetry", "the crystal does not have the symmetry of its group", true);
     }
 }
@@ -1036,6 +1098,9 @@ fn c03(s: &mut Search, rng: &mut Rng) {
     while s.time_left() && n < 2_000_000 {
         n += 1;
         let (st, like, cut) = gen_lj_state(rng);
+        // several occupied sites (library API / JSON): every pair of molecule images still counts once
+        let multi = rng.chance(1, 6);
+        let st = if multi { with_more_sites(rng, &st) } else { st };
         let req = format!("oracle c03_latticesum {}", st);
         let reply = crate::exec::exec_line(&req);
         // the reply's own category selects the predicate (so that a listed finding suppresses only
@@ -1047,9 +1112,9 @@ fn c03(s: &mut Search, rng: &mut Rng) {
         } else {
             "c03_sum"
         };
-        s.class(if like { "like" } else { "unlike" });
+        s.class(if multi { "several-sites" } else if like { "like" } else { "unlike" });
         s.run("Energy.latticeSum", &req, pred, "score is not minus the lattice energy per molecule", true);
-        if like && n % 2 == 0 {
+        if like && n % 2 == 0 && !multi {
             let (sx, sy) = *rng.pick(&[(1, 0), (0, 1), (1, 1), (-1, 0), (0, -1)]);
             let g = st.split(' ').find(|t| crate::gen::GROUPS.contains(t)).unwrap_or("");
             // (1/2, 1/2) is a symmetry-equivalent origin for p1, p2, p2mm, p2gg
